@@ -401,6 +401,23 @@ func (group *Group) delIn() {
 		group.psPubDumpFile.Close()
 		group.psPubDumpFile = nil
 	}
+	// the codec information belongs to the input that just left: a later publisher of the same
+	// name may carry different tracks (e.g. audio only), and nobody may keep waiting for a key
+	// frame of a stream that is gone
+	group.stat.AudioCodec = ""
+	group.stat.VideoCodec = ""
+	group.stat.VideoWidth = 0
+	group.stat.VideoHeight = 0
+	for session := range group.rtmpSubSessionSet {
+		session.ShouldWaitVideoKeyFrame = false
+	}
+	for session := range group.httpflvSubSessionSet {
+		session.ShouldWaitVideoKeyFrame = false
+	}
+	for session := range group.rtspSubSessionSet {
+		session.ShouldWaitVideoKeyFrame = false
+	}
+
 	group.rtmpGopCache.Clear()
 	group.httpflvGopCache.Clear()
 	group.httptsGopCache.Clear()
